@@ -368,8 +368,9 @@ Print Assumptions C06_pst13_combinations_complete.
 
 (* IPA open_combinations -> check_combinations, end to end (free-module view): items that are commitments to their polynomials in
    the sense the opening needs (sem_honest: what commit produces, honest_sem), the verifier holding the same commitments,
-   combinations of polynomials without degree bounds under distinct labels, a key size that is a power of two, non-zero round
-   challenges, claims that are the stated combinations of the true evaluations *)
+   distinct combination labels, a key size that is a power of two, non-zero round challenges, claims that are the stated
+   combinations of the true evaluations.  No condition on the combinations themselves: whenever the prover succeeds (polynomials
+   without degree bounds, or one degree-bounded polynomial alone with coefficient one), the verifier accepts *)
 From PC Require Import Proofs.IPAComplete Proofs.IPABatchComplete Proofs.IPALCComplete.
 Theorem C06_ipa_combinations_complete :
   forall (FO : FieldOps) (FL : FieldLaws FO) d,
@@ -378,7 +379,6 @@ Theorem C06_ipa_combinations_complete :
     il_honest d (of_list N.compare (map (fun it => (lp_label (fst (fst it)), it)) items)) ->
     il_agree (of_list N.compare (map (fun it => (lp_label (fst (fst it)), it)) items)) (of_list N.compare cs) ->
     NoDup (map fst lcs) ->
-    (forall lab terms, In (lab, terms) lcs -> unbounded (of_list N.compare (map (fun it => (lp_label (fst (fst it)), it)) items)) terms) ->
     Forall (fun rc => rc <> 0) hchal ->
     (forall pl pt labels lab terms, In (pl, (pt, labels)) (groups qs) -> In lab labels -> In (lab, terms) lcs ->
         lookup_eval lab pt ev
